@@ -523,6 +523,27 @@ def frame_obligations(index, rel, qualname, modifies=(), label=None, roots=None)
         recs.append(dict(function=fn, instance=label or qualname, kind="frame", text="line %d: %s does not write through a caller-visible reference" % (lineno, desc), status="refuted" if bad else "discharged", backend="frame-analysis", claim=True, ms=0.0, model={"tainted_by": bad} if bad else None, lineno=lineno))
     if not S.sites:
         recs.append(dict(function=fn, instance=label or qualname, kind="frame", text="no mutation site in the function body (frame clause holds vacuously: nothing is written)", status="discharged", backend="frame-analysis", claim=True, ms=0.0, model=None))
+    # fresh result: no function reachable from this one is memoised (functools.lru_cache / cache / a module-level dict used as a cache is
+    # caught by the global-state rule above): a memoised helper hands the same mutable object to every caller, so a caller that edits its
+    # result corrupts every later call
+    memo = []
+    seen = set()
+    stack = [(rel, node, cls)]
+    while stack:
+        r_, n_, c_ = stack.pop()
+        if id(n_) in seen:
+            continue
+        seen.add(id(n_))
+        for dec in getattr(n_, "decorator_list", []):
+            txt = ast.unparse(dec)
+            if "cache" in txt.lower() or "memo" in txt.lower():
+                memo.append("%s (line %d of %s): @%s" % (n_.name, n_.lineno, r_, txt[:40]))
+        for sub in ast.walk(n_):
+            if isinstance(sub, ast.Call):
+                tgt = index.resolve(sub, c_)
+                if tgt:
+                    stack.append((tgt[0], tgt[1], c_ if (isinstance(sub.func, ast.Attribute) and isinstance(sub.func.value, ast.Name) and sub.func.value.id == "self") else None))
+    recs.append(dict(function=fn, instance=label or qualname, kind="frame", text="the result is a fresh object: no function reachable from %s is memoised" % fn, status="refuted" if memo else "discharged", backend="frame-analysis", claim=True, ms=0.0, model={"memoised": memo} if memo else None))
     for lineno, what in S.unknown:
         recs.append(dict(function=fn, instance=label or qualname, kind="frame-unclassified", text="line %d: %s could not be classified; result treated as aliasing its inputs" % (lineno, what), status="discharged", backend="frame-analysis(conservative)", claim=False, ms=0.0, model=None))
     return recs, S
